@@ -13,6 +13,7 @@ import (
 	"crypto/rand"
 	"encoding/json"
 	"fmt"
+	"math/big"
 	"time"
 
 	"circlsim/core"
@@ -20,6 +21,7 @@ import (
 
 	"github.com/cloudflare/circl/dh/csidh"
 	"github.com/cloudflare/circl/ecc/bls12381"
+	"github.com/cloudflare/circl/ecc/bls12381/ff"
 	"github.com/cloudflare/circl/ecc/fourq"
 	"github.com/cloudflare/circl/ecc/goldilocks"
 	"github.com/cloudflare/circl/expander"
@@ -29,6 +31,8 @@ import (
 	"github.com/cloudflare/circl/math/mlsbset"
 	"github.com/cloudflare/circl/math/polynomial"
 	"github.com/cloudflare/circl/secretsharing"
+	"github.com/cloudflare/circl/sign/eddilithium2"
+	"github.com/cloudflare/circl/sign/eddilithium3"
 	tssrsa "github.com/cloudflare/circl/tss/rsa"
 )
 
@@ -589,8 +593,34 @@ func scenarioFamily() *family {
 		pk2, sk2 := mlkem768.NewKeyFromSeed(r.Bytes(mlkem768.KeySeedSize))
 		b2 := make([]byte, mlkem768.PublicKeySize)
 		pk2.Pack(b2)
+		// a ciphertext for key 1, made before its public-key object is recycled
+		ctA, ssA := make([]byte, mlkem768.CiphertextSize), make([]byte, mlkem768.SharedKeySize)
+		pk1.EncapsulateTo(ctA, ssA, r.Bytes(mlkem768.EncapsulationSeedSize))
+		skA := make([]byte, mlkem768.PrivateKeySize)
+		sk1.Pack(skA)
+		// a refused decode into the object first (a key with a coefficient out of range), then key 2
+		bad := append([]byte{}, b2...)
+		bad[0], bad[1] = 0xff, 0xff
+		_ = pk1.Unpack(bad)
+		checkSk1 := func(when string) bool {
+			dA := make([]byte, mlkem768.SharedKeySize)
+			sk1.DecapsulateTo(dA, ctA)
+			now := make([]byte, mlkem768.PrivateKeySize)
+			sk1.Pack(now)
+			if !bytes.Equal(dA, ssA) || !bytes.Equal(now, skA) {
+				run.Violate("hist[scenarios].mlkem768.PublicKey.Unpack", "operation-modifies-another-object", "%s the public-key object returned by NewKeyFromSeed, the private key from the same call no longer decapsulates its own ciphertext / packs differently", when)
+				return false
+			}
+			return true
+		}
+		if !checkSk1("after a refused decode into") {
+			return
+		}
 		if err := pk1.Unpack(b2); err != nil { // decode key 2 into the object that held key 1
 			run.Violate("hist[scenarios].mlkem768.PublicKey.Unpack", "decode-into-used-object-fails", "%v", err)
+			return
+		}
+		if !checkSk1("after decoding another key into") {
 			return
 		}
 		seed := r.Bytes(mlkem768.EncapsulationSeedSize)
@@ -729,6 +759,91 @@ func scenarioFamily() *family {
 		}
 		if _, err := tssrsa.CombineSignShares(&key.PublicKey, second, digest); err != nil {
 			run.Violate("hist[scenarios].tss/rsa.KeyShare.Sign", "stale-or-aliased-state", "cache=%v blind=%v: partial signatures from the second use of each share do not combine: %v", cache, blind, err)
+		}
+	})
+	sc("eddilithium2/3.PublicKey.Unpack(buffer-reused)", func(run *core.Run, imm uint64) {
+		r := core.NewPRNG(imm)
+		var seed2 [eddilithium2.SeedSize]byte
+		copy(seed2[:], r.Bytes(len(seed2)))
+		pkA, skA := eddilithium2.NewKeyFromSeed(&seed2)
+		var bufA [eddilithium2.PublicKeySize]byte
+		pkA.Pack(&bufA)
+		keep := bufA
+		var got eddilithium2.PublicKey
+		got.Unpack(&bufA)
+		core.Recycle(bufA[:]) // the array the key was read from is reused by its owner
+		msg := r.Bytes(20)
+		var sig [eddilithium2.SignatureSize]byte
+		eddilithium2.SignTo(skA, msg, sig[:])
+		var again [eddilithium2.PublicKeySize]byte
+		got.Pack(&again)
+		if again != keep || !got.Equal(pkA) || !eddilithium2.Verify(&got, msg, sig[:]) {
+			run.Violate("hist[scenarios].eddilithium2.PublicKey.Unpack", "retains-the-callers-buffer", "a key unpacked from an array changes when the caller reuses the array (packs equal: %v, Equal: %v)", again == keep, got.Equal(pkA))
+			return
+		}
+		var seed3 [eddilithium3.SeedSize]byte
+		copy(seed3[:], r.Bytes(len(seed3)))
+		pkB, skB := eddilithium3.NewKeyFromSeed(&seed3)
+		var bufB [eddilithium3.PublicKeySize]byte
+		pkB.Pack(&bufB)
+		keepB := bufB
+		var gotB eddilithium3.PublicKey
+		gotB.Unpack(&bufB)
+		core.Recycle(bufB[:])
+		var sigB [eddilithium3.SignatureSize]byte
+		eddilithium3.SignTo(skB, msg, sigB[:])
+		var againB [eddilithium3.PublicKeySize]byte
+		gotB.Pack(&againB)
+		if againB != keepB || !gotB.Equal(pkB) || !eddilithium3.Verify(&gotB, msg, sigB[:]) {
+			run.Violate("hist[scenarios].eddilithium3.PublicKey.Unpack", "retains-the-callers-buffer", "a key unpacked from an array changes when the caller reuses the array")
+			return
+		}
+		var skBuf [eddilithium2.PrivateKeySize]byte
+		skA.Pack(&skBuf)
+		var sk2 eddilithium2.PrivateKey
+		sk2.Unpack(&skBuf)
+		core.Recycle(skBuf[:])
+		if !sk2.Equal(skA) {
+			run.Violate("hist[scenarios].eddilithium2.PrivateKey.Unpack", "retains-the-callers-buffer", "a private key unpacked from an array changes when the caller reuses the array")
+		}
+	})
+	sc("bls12381/ff.Order(mutate-returned)", func(run *core.Run, imm uint64) {
+		fo, so := ff.FpOrder(), ff.ScalarOrder()
+		keepF, keepS := append([]byte{}, fo...), append([]byte{}, so...)
+		// x + p for a valid G1 encoding, built before anything is modified
+		var pt bls12381.G1
+		var k bls12381.Scalar
+		k.SetUint64(imm | 1)
+		pt.ScalarMult(&k, bls12381.G1Generator())
+		enc := pt.BytesCompressed()
+		x := new(big.Int).SetBytes(append([]byte{enc[0] & 0x1f}, enc[1:]...))
+		x.Add(x, new(big.Int).SetBytes(keepF))
+		var plusP []byte
+		if x.BitLen() <= 381 {
+			plusP = x.FillBytes(make([]byte, 48))
+			plusP[0] |= enc[0] & 0xe0
+		}
+		// the caller treats what it got as its own: reverses one, zeroes the other
+		for i, j := 0, len(fo)-1; i < j; i, j = i+1, j-1 {
+			fo[i], fo[j] = fo[j], fo[i]
+		}
+		for i := range so {
+			so[i] = 0
+		}
+		if !bytes.Equal(ff.FpOrder(), keepF) || !bytes.Equal(ff.ScalarOrder(), keepS) {
+			run.Violate("hist[scenarios].bls12381/ff.FpOrder/ScalarOrder", "modifying-a-returned-value-changes-later-results", "the order returned after the caller modified an earlier result differs")
+			return
+		}
+		if plusP != nil {
+			var q bls12381.G1
+			if q.SetBytes(plusP) == nil {
+				run.Violate("hist[scenarios].bls12381.G1.SetBytes", "modifying-a-returned-value-changes-later-results", "after the caller modified the slice returned by ff.FpOrder(), the coordinate x+p is accepted")
+				return
+			}
+		}
+		var s1 ff.Scalar
+		if s1.UnmarshalBinary(keepS) == nil {
+			run.Violate("hist[scenarios].bls12381/ff.Scalar.UnmarshalBinary", "modifying-a-returned-value-changes-later-results", "after the caller modified the slice returned by ff.ScalarOrder(), the scalar r is accepted")
 		}
 	})
 	sc("mlsbset.Encode(short-k-with-spare-capacity)", func(run *core.Run, imm uint64) {
